@@ -1210,6 +1210,9 @@ func hardcoded(fr *Frame, f *ssa.Function, cc *ssa.CallCommon, site ssa.Instruct
 			}
 		}
 		return []Term{r}, true
+	case "fmt.Sprintf", "fmt.Sprint", "fmt.Sprintln":
+		c.assumed["fmt.Sprint* formats without modifying its arguments (String/Error methods are side-effect free)"] = true
+		return []Term{fr.freshOfType("sprintf", types.Typ[types.String])}, true
 	case "errors.Is":
 		c.assumed["errors.Is is the reflexive-transitive unwrap relation errIs"] = true
 		return []Term{"(errIs " + args[0] + " " + args[1] + ")"}, true
